@@ -74,7 +74,11 @@ RawKinds == {<<0, 2>>, <<1, 2>>, <<2, 2>>, <<0, 3>>, <<1, 3>>, <<2, 3>>, <<3, 11
              <<64, 4>>, <<6, 1>>, <<6, 0>>, <<6, 2>>, <<6, 3>>}
 RawVals == {<<0, 0, 0, 0, 0, 0>>, <<255, 255, 255, 255, 255, 255>>, <<0, 0, 0, 1, 0, 0>>, <<0, 1, 0, 0, 0, 0>>, <<128, 0, 0, 0, 0, 0>>, <<0, 0, 128, 0, 0, 0>>,
             <<1, 2, 3, 4, 5, 6>>, <<0, 0, 255, 255, 0, 0>>, <<0, 0, 0, 0, 1, 0>>, <<0, 0, 0, 0, 0, 255>>}
+\* ... and a grid over the type / sub-type octets around the ones the decoder knows (the other formats of a known sub-type -
+\* 2-octet AS, IPv4, 4-octet AS; transitive and not - and the neighbours): whatever text comes out must be accepted back
+RawGrid == {<<t, st>> : t \in {0, 1, 2, 3, 6, 8, 64, 65, 66, 67, 128, 129, 130, 131, 136, 144}, st \in 0..13 \cup {128, 255}}
 RawPool(lazy) == {Named("raw", k \o v) : k \in RawKinds, v \in RawVals}
+                 \cup {Named("raw", k \o v) : k \in RawGrid, v \in {<<0, 0, 0, 0, 0, 0>>, <<10, 1, 2, 3, 0, 5>>, <<0, 1, 17, 112, 0, 5>>, <<255, 255, 255, 255, 255, 255>>}}
 \* several extended communities of one kind, with different field values, in one attribute (both orders)
 KindPairs ==
    {<<RouteTarget0(1, <<0, 1>>), RouteTarget0(65535, <<65535, 65535>>)>>, <<RouteTarget1(<<10, 1, 2, 3>>, 1), RouteTarget2(<<1, 0>>, 65535)>>,
